@@ -108,7 +108,7 @@ var c05Near = []string{
 	"0.6666666666666666666666666666666667", "9999999999999999999999999999999999", "-0.6666666666666666666666666666666667", "5e-7", "9999999999999999999999999999999999e6111",
 }
 
-var c05NearExprs = []string{"a + b", "a - b", "a * b", "a / b", "a // b", "a % b", "a == b", "a < b", "a > b", "ceil(a)", "floor(a)", "abs(a)", "sum([a, b])", "avg([a, b])", "-a", "to_number(to_string(a)) == a", "a > `0`", "a == `1`"}
+var c05NearExprs = []string{"to_number(s) == a", "to_number(s) + b", "a + b", "a - b", "a * b", "a / b", "a // b", "a % b", "a == b", "a < b", "a > b", "ceil(a)", "floor(a)", "abs(a)", "sum([a, b])", "avg([a, b])", "-a", "to_number(to_string(a)) == a", "a > `0`", "a == `1`"}
 
 // H_C05_near: concrete operands where binary floating point or premature
 // rounding changes the result; the reference computes with the real
@@ -120,12 +120,12 @@ func H_C05_near() {
 	b := json.Number(c05Near[vrtChoose("b", len(c05Near))])
 	var doc map[string]any
 	if vrtChoose("carrier", 2) == 0 {
-		doc = map[string]any{"a": a, "b": b}
+		doc = map[string]any{"a": a, "b": b, "s": string(a)}
 	} else {
 		da, e1 := decimal128.Parse(string(a))
 		db, e2 := decimal128.Parse(string(b))
 		vrtAssume(e1 == nil && e2 == nil)
-		doc = map[string]any{"a": da, "b": db}
+		doc = map[string]any{"a": da, "b": db, "s": string(a)}
 	}
 	diffSearch(expr, doc, false)
 }
